@@ -48,8 +48,9 @@ type line struct {
 // ---------------------------------------------------------------------------------------------
 
 func childMain() {
-	// msgdrv child <scenarios> <events> <start> <count> <settle-ms>
-	if len(os.Args) < 7 {
+	// msgdrv child <scenarios> <events> <start position> <count> <settle-ms> <offset> <stride>
+	// position p stands for scenario index offset + stride * p
+	if len(os.Args) < 9 {
 		fmt.Fprintln(os.Stderr, "DRIVER-ERROR: child usage")
 		os.Exit(exitDriverError)
 	}
@@ -61,6 +62,11 @@ func childMain() {
 	start, _ := strconv.Atoi(os.Args[4])
 	count, _ := strconv.Atoi(os.Args[5])
 	settleMs, _ := strconv.Atoi(os.Args[6])
+	offset, _ := strconv.Atoi(os.Args[7])
+	stride, _ := strconv.Atoi(os.Args[8])
+	if stride < 1 {
+		stride = 1
+	}
 	f, err := os.OpenFile(os.Args[3], os.O_CREATE|os.O_WRONLY|os.O_APPEND, 0600)
 	if err != nil {
 		fmt.Fprintln(os.Stderr, "DRIVER-ERROR:", err)
@@ -79,13 +85,13 @@ func childMain() {
 		fmt.Fprintln(os.Stderr, "DRIVER-ERROR:", err)
 		os.Exit(exitDriverError)
 	}
-	for i := start; i < len(scs) && i < start+count; i++ {
+	for i := start; offset+stride*i < len(scs) && i < start+count; i++ {
 		emit(line{K: "begin", Idx: i})
-		err := runScenario(w, scs[i], time.Duration(settleMs)*time.Millisecond,
+		err := runScenario(w, scs[offset+stride*i], time.Duration(settleMs)*time.Millisecond,
 			func(ev kit.Ev) { emit(line{K: "ev", Idx: i, Ev: ev}) },
 			func(ev kit.Ev) { emit(line{K: "op", Idx: i, Ev: ev}) })
 		if err != nil {
-			fmt.Fprintf(os.Stderr, "DRIVER-ERROR: scenario %d: %v\n", scs[i].Scn, err)
+			fmt.Fprintf(os.Stderr, "DRIVER-ERROR: scenario %d: %v\n", scs[offset+stride*i].Scn, err)
 			os.Exit(exitDriverError)
 		}
 		emit(line{K: "end", Idx: i})
@@ -108,14 +114,15 @@ type childResult struct {
 	stderr string
 }
 
-func runChild(scnFile string, start, count, settleMs int, timeout time.Duration) (*childResult, error) {
+func runChild(scnFile string, start, count, settleMs, offset, stride int, timeout time.Duration) (*childResult, error) {
 	tmp, err := ioutil.TempFile("", "verif-msgdrv-ev")
 	if err != nil {
 		return nil, err
 	}
 	tmp.Close()
 	defer os.Remove(tmp.Name())
-	cmd := exec.Command(os.Args[0], "child", scnFile, tmp.Name(), strconv.Itoa(start), strconv.Itoa(count), strconv.Itoa(settleMs))
+	cmd := exec.Command(os.Args[0], "child", scnFile, tmp.Name(), strconv.Itoa(start), strconv.Itoa(count), strconv.Itoa(settleMs),
+		strconv.Itoa(offset), strconv.Itoa(stride))
 	var errb bytes.Buffer
 	cmd.Stderr = &errb
 	cmd.Stdout = ioutil.Discard
@@ -242,14 +249,15 @@ func frameWhere(l string) string {
 	return l
 }
 
-// superviseRange runs scenarios [lo, hi) in child processes, restarting after every crash.
-func superviseRange(scnFile string, lo, hi, settleMs int, record func(idx int, evs []kit.Ev)) error {
+// superviseRange runs the positions [lo, hi) of one shard (scenario index = offset + stride * position) in child
+// processes, restarting after every crash.  record receives positions.
+func superviseRange(scnFile string, lo, hi, settleMs, offset, stride int, record func(idx int, evs []kit.Ev)) error {
 	perScenario := 8 * time.Second
 	idx := lo
 	crashes := 0
 	seen := map[string]bool{} // crash classes already attributed once (message type + panicking function)
 	for idx < hi {
-		res, err := runChild(scnFile, idx, hi-idx, settleMs, time.Duration(hi-idx+5)*perScenario)
+		res, err := runChild(scnFile, idx, hi-idx, settleMs, offset, stride, time.Duration(hi-idx+5)*perScenario)
 		if err != nil {
 			return err
 		}
@@ -299,7 +307,7 @@ func superviseRange(scnFile string, lo, hi, settleMs int, record func(idx int, e
 			if cand < lo {
 				continue
 			}
-			s, err := runChild(scnFile, cand, 1, 1500, 90*time.Second)
+			s, err := runChild(scnFile, cand, 1, 800, offset, stride, 90*time.Second)
 			if err != nil {
 				return err
 			}
@@ -332,14 +340,14 @@ func supervise(scs []kit.Scenario, out *kit.Out) error {
 			settleMs = n
 		}
 	}
-	shards := runtime.NumCPU() / 2
+	shards := runtime.NumCPU() * 3 / 4
 	if v := os.Getenv("VERIF_SHARDS"); v != "" {
 		if n, err := strconv.Atoi(v); err == nil && n > 0 {
 			shards = n
 		}
 	}
-	if shards > len(scs)/20+1 {
-		shards = len(scs)/20 + 1
+	if shards > len(scs)/12+1 {
+		shards = len(scs)/12 + 1
 	}
 	all := map[int][]kit.Ev{}
 	var mu sync.Mutex
@@ -349,15 +357,13 @@ func supervise(scs []kit.Scenario, out *kit.Out) error {
 		mu.Unlock()
 	}
 	errs := make(chan error, shards)
-	per := (len(scs) + shards - 1) / shards
 	started := 0
-	for lo := 0; lo < len(scs); lo += per {
-		hi := lo + per
-		if hi > len(scs) {
-			hi = len(scs)
-		}
+	for k := 0; k < shards && k < len(scs); k++ {
+		npos := (len(scs) - k + shards - 1) / shards
 		started++
-		go func(lo, hi int) { errs <- superviseRange(scnFile, lo, hi, settleMs, record) }(lo, hi)
+		go func(k, npos int) {
+			errs <- superviseRange(scnFile, 0, npos, settleMs, k, shards, func(pos int, evs []kit.Ev) { record(k+shards*pos, evs) })
+		}(k, npos)
 	}
 	var first error
 	for i := 0; i < started; i++ {
